@@ -20,11 +20,12 @@ import (
 func VerifC14_Cache() {
 	installOCSPWorld(1)
 	serial := big.NewInt(4711) // concrete: the clock is the symbolic dimension of this harness
-	def := time.Duration(0)
+	// two validators in one process, each with its own default_cache_duration (the second is provisioned last)
+	defs := []time.Duration{0, 10 * time.Minute}
 	if verifrt.Choose(2) == 1 {
-		def = 10 * time.Minute
+		defs = []time.Duration{10 * time.Minute, 0}
 	}
-	checkers := []*OCSPRevocationChecker{newOCSPChecker(false, def), newOCSPChecker(false, def)}
+	checkers := []*OCSPRevocationChecker{newOCSPChecker(false, defs[0]), newOCSPChecker(false, defs[1])}
 	certA := clientCert("CN=client", "CN=CA-A", serial, "http://ocsp")
 	certB := clientCert("CN=client", "CN=CA-B", serial, "http://ocsp")
 	type fetched struct {
@@ -42,7 +43,9 @@ func VerifC14_Cache() {
 		if which == 1 {
 			cert = certB
 		}
-		chk := checkers[verifrt.Choose(verifrt.Param("instances", 1))]
+		ci := verifrt.Choose(verifrt.Param("instances", 1))
+		chk := checkers[ci]
+		def := defs[ci]
 		// what the responder would answer right now
 		beh := verifrt.Choose(3) // 0 fails, 1 good, 2 revoked
 		nuKind := 0
